@@ -84,6 +84,25 @@ CLAIMED = {
                      "histories) + differential correspondence + independent index oracle",
         "design_ref": "DESIGN.md section 7 (C04)",
     },
+    "C05": {
+        "text": "Theorems: C05_shape_box (for every result of a public multi-vertex constructor - multipoint, polyline new/"
+                "with_parts, polygon new/with_rings after closing and reordering, multipatch - without NaN coordinates the box "
+                "is exact in X, Y and in Z, M where the point type has them: each minimum is bit for bit some vertex's value and "
+                "<= every vertex's value, maxima dually, for any number of parts and any position of the extreme vertex; by L5, "
+                "a fold of f64_min/f64_max over non-NaN patterns, any order of the comparison arguments), C05_range_is_box, "
+                "C05_header_box (after any history with >= 1 accepted shape the header box is, in every dimension the file's "
+                "type carries, bit for bit the range of some written shape and bounds every written shape's range; infinite "
+                "coordinates included, via the lemma that anything >= +inf is +inf), C05_header_absent (dimensions the type does "
+                "not carry are +0.0, n >= 0). Tie: constructed values and written bytes vs the model; oracle recomputes both "
+                "boxes from the vertices on special-value-heavy inputs incl. files whose Z or M are all one infinity.",
+        "note": COMMON_NOTE + "range_good (64-bit patterns, min <= max per shape) is what C05_shape_box establishes for "
+                "constructed shapes; the header theorem is stated on the shapes' ranges (for points with a no-data measure the "
+                "range is (0,0), as in the code: no claim there, as the property says). Floats are compared through the "
+                "sign-magnitude key on bit patterns (Model/F64.v), validated against hardware comparisons by the correspondence.",
+        "technique": "Coq proof (order lemmas on f64 bit patterns, min/max fold lemma L5, writer invariant) + differential "
+                     "correspondence + box oracle on special values",
+        "design_ref": "DESIGN.md section 7 (C05)",
+    },
     "C09": {
         "text": "Theorems over every history of calls {write s, finalize} (any shapes of any types, rejected writes included; any "
                 "length), with or without index destination, ending in drop or finalize-then-drop: C09_finalize_irrelevant (both "
